@@ -46,7 +46,11 @@ func judgeTOTP(c *Ctx, k totpCase) {
 		k.Skew = unusedField(uint64(k.At.Unix) ^ uint64(len(k.Secret)))
 		p = &otp.Param{Digits: otp.Digits(k.Digits), Algorithm: otp.Algorithm(k.Algo), Period: uint(k.Period), Skew: uint(k.Skew)}
 	}
-	code, err, pan := callGenerateTOTP(k.Secret, k.At.Time(), p)
+	at := k.At.Time()
+	if gen.HasMono(at) {
+		r.Count("instants_carrying_a_monotonic_reading", 1)
+	}
+	code, err, pan := callGenerateTOTP(k.Secret, at, p)
 	r.Eval(1)
 	supported := digits >= 1 && digits <= 10 && ref.HashSupported(algo)
 	pcls := "period>0"
@@ -146,7 +150,7 @@ func judgeDefaults(c *Ctx, k defaultsCase) {
 func init() {
 	register(&Prop{
 		ID: "C02",
-		Rule: "cases = instants (0..2^62, step boundaries +-2 s, 2^31/2^32 edges) x nanoseconds x locations x monotonic readings x periods (0,1,..,2^32, larger than the instant) x digits x hashes, each GenerateTOTP result compared with the reference HOTP at floor(unix/period); " +
+		Rule: "cases = instants (0..2^62, step boundaries +-2 s, 2^31/2^32 edges) x nanoseconds x locations x monotonic readings x periods (0,1,..,2^32, larger than the instant) x digits x hashes x arbitrary Skew (unused by generation), each GenerateTOTP result compared with the reference HOTP at floor(unix/period); " +
 			"distinct_nontrivial counts distinct (key,unix second,period,digits,hash) tuples with supported parameters whose code was compared, plus distinct defaults-consistency tuples",
 		Run: func(c *Ctx) {
 			rng := c.RNG.Fork(2)
@@ -222,6 +226,43 @@ func init() {
 				groups = append(groups, g)
 			}
 			parallelJudge(c, groups, judgeSameSecond)
+			// step pairs on one goroutine with one secret and parameter set: instant A, then instant B in another
+			// step whose monotonic reading disagrees with its wall clock (equal to A's reading, or A's plus/minus a
+			// little, or far away) - the code must follow B's Unix second alone
+			if !gen.MonoShiftWorks {
+				c.R.Inconclusive("instants whose monotonic reading disagrees with the wall clock: time.Time layout not as assumed")
+			}
+			now := time.Now().Unix()
+			for i := 0; i < c.N(3000, 40000) && gen.MonoShiftWorks; i++ {
+				p := gen.Pick(rng, []uint64{0, 1, 30, 30, 60, 3600, 86400})
+				pp := int64(p)
+				if pp == 0 {
+					pp = 30
+				}
+				a := now + int64(rng.Intn(400000000)) - 200000000 // representable with a monotonic reading
+				dist := (1 + int64(rng.Intn(5))) * pp
+				if rng.Bool() {
+					dist = -dist
+				}
+				b := a + dist + int64(rng.Intn(int(pp)))
+				base := mk(rng.Bytes(20), a, p, 6+rng.Intn(5), rng.Intn(3), false)
+				base.At = gen.InstantSpec{Unix: a, Ns: int64(rng.Intn(1000000000)), Zone: rng.Intn(gen.NZones()), Mono: true}
+				judgeTOTP(c, base)
+				second := base
+				skew := (a - b) * 1000000000 // B's reading == A's reading
+				switch rng.Intn(4) {
+				case 1:
+					skew += int64(rng.Intn(2000000000)) - 1000000000
+				case 2:
+					skew = int64(rng.Intn(1<<40)) - 1<<39
+				case 3:
+					skew -= dist * 1000000000 // the reading moves the opposite way of the wall clock
+				}
+				second.At = gen.InstantSpec{Unix: b, Ns: int64(rng.Intn(1000000000)), Zone: rng.Intn(gen.NZones()), Mono: true, MonoSkewNs: skew}
+				judgeTOTP(c, second)
+				judgeTOTP(c, base)
+				c.R.Count("stepped_clock_pairs", 1)
+			}
 			var defs []defaultsCase
 			for i := 0; i < c.N(5000, 100000); i++ {
 				defs = append(defs, defaultsCase{KeyHex: hexs(rng.Bytes(1 + rng.Intn(40))), Unix: gen.UnixSeconds(rng, 30), Digits: uint8(gen.Pick(rng, []int{6, 7, 8, 9, 10, 1, 4})), Algo: uint8(rng.Intn(3))})
